@@ -401,6 +401,13 @@ def compare_pair(run, rule, a_path, b_path, keys=ALL, subs_b=(), exempt=(), subs
     run.bad(rule, inst, "ported function differs from its Anchor original:\n      " + "\n      ".join(parts[:8]), loc="%s | %s" % (a.loc(), b.loc()))
 
 
+def R4b_entry_forwarding(run):
+    run.title("R4b", "every Anchor dispatch wrapper forwards its arguments to its handler under the handler's own parameter names (no two same-typed arguments swapped)")
+    from rules.common import entry_forwarding
+    n = entry_forwarding(run, "R4b")
+    run.floor("R4b", "forwarding wrappers", n, 55)
+
+
 def R5_ported_pairs(run):
     run.title("R5", "each Pinocchio port has the same guard atoms (with error codes), the same primitive calls with the same argument terms and "
                     "the same returned terms as its Anchor original, after the explicit name map; exemptions are listed one by one")
@@ -410,4 +417,4 @@ def R5_ported_pairs(run):
     run.floor("R5", "ported pairs", len(PAIRS), 25)
 
 
-RULES = [R1_layouts, R2_discriminators, R3_accessors, R4_routing, R5_ported_pairs]
+RULES = [R1_layouts, R2_discriminators, R3_accessors, R4_routing, R4b_entry_forwarding, R5_ported_pairs]
